@@ -43,7 +43,7 @@ pub const DEFECTS: &[&str] = &[
 
 pub fn generate(thorough: bool, seed: u64, em: &mut Emitter) {
     let mut r = Rng::new(seed ^ 0xC05);
-    let n = if thorough { 25_000 } else { 1_500 };
+    let n = if thorough { 8_000 } else { 1_500 };
     for i in 0..n {
         let mut rc = r.fork();
         let r = &mut rc;
